@@ -153,3 +153,135 @@ Lemma allfresh_tail l : allfresh l -> allfresh (tail l).
 Proof. destruct l; [done|]. by intros [_ H]%allfresh_cons. Qed.
 Lemma allfresh_head (l : list job) : allfresh l -> forall j js, l = j :: js -> fresh j = true \/ is_Some (susp j).
 Proof. intros H j js ->. left. by apply allfresh_cons in H as [H _]. Qed.
+
+Lemma hjobs_opt_wake ow : hjobs (opt_wake ow) = []. Proof. by destruct ow. Qed.
+Lemma hjobs_wake_frames ws : hjobs (wake_frames ws) = [].
+Proof. induction ws as [|w ws IH]; [done|]. exact IH. Qed.
+
+Ltac cnt_clause P J Hb s a Hst :=
+  lazymatch goal with |- np P ?s' = 0 =>
+    pose proof (np_upd P s s' a _ _ Hst ltac:(solve_stacks)) as Hu; rewrite J in Hu;
+    (let n := fresh "cnt" in set (n := np P s') in *; clearbody n);
+    try match goal with k : kont |- _ => destruct k end;
+    cbn in Hb, Hu; rewrite ?cntf_app, ?cntf_opt_wake, ?cntf_wake_frames in Hu by done; cbn in Hu; lia end.
+
+Section Pres.
+  Context (T : ftables) (HT : own_cond T) (HC : jobs_cond T).
+
+  Lemma step_jobs s a s' : Inv_own s -> Inv_jobs s -> step T s a = Some s' -> Inv_jobs s'.
+  Proof.
+    intros HO HJ Hstep. step_split Hstep Ea Est.
+    all: try discriminate Hstep.
+    all: injection Hstep as <-.
+    all: pose proof (stacks_lookup _ _ _ Ea) as Hst; rewrite Est in Hst.
+    all: match goal with |- Inv_jobs ?s' =>
+           first [ assert (Hh : held s' = held s) by
+                     (eapply held_other_step; [exact Hst|solve_stacks|cbn; rewrite ?hjobs_app, ?hjobs_opt_wake, ?hjobs_wake_frames; reflexivity])
+                 | destruct (held_runner_step s a _ _ HO Hst eq_refl) as (Hh0 & Hr & Hh1);
+                   specialize (Hh1 s' _ ltac:(solve_stacks))
+                 | assert (Hno : owned (qs s) = false) by (tbl_facts HT; intuition);
+                   destruct (held_acquire_step s a _ HO Hno Hst) as (Hh0 & Hr & Hh1);
+                   specialize (Hh1 s' _ ltac:(solve_stacks)) ] end.
+    all: destruct HJ as [J1 J2 J3 J4 J7 J5 J6].
+    all: pose proof (npl_ge badpark _ _ _ Hst) as Hbp; fold (np badpark s) in Hbp; rewrite J4 in Hbp.
+    all: pose proof (npl_ge badpush _ _ _ Hst) as Hbq; fold (np badpush s) in Hbq; rewrite J7 in Hbq.
+    all: split.
+    all: try (cnt_clause badpark J4 Hbp s a Hst; fail).
+    all: try (cnt_clause badpush J7 Hbq s a Hst; fail).
+    all: try (lazymatch goal with Hst : stacks _ !! _ = Some (?fr :: _) |- _ =>
+              lazymatch eval cbn in (pjob fr) with Some ?j =>
+                assert (Hsj : is_Some (susp j)) by
+                  (cbn in Hbp; destruct (bool_decide (is_Some (susp j))) eqn:Eb; [by apply bool_decide_eq_true in Eb|cbn in Hbp; lia]) end end).
+    all: try (lazymatch goal with Hst : stacks _ !! _ = Some (FD1 ?j :: _) |- _ =>
+                assert (Hfj : fresh j = true) by (destruct (fresh j) eqn:Ef; [done|]; cbn in Ef, Hbq; rewrite Ef in Hbq; cbn in Hbq; lia) end).
+    all: try match goal with Hfj : fresh (JFut _ ?st _) = true |- _ => destruct st; [|discriminate Hfj] end.
+    all: clear Hbp Hbq J4 J7.
+    all: unfold inprog, pend in *.
+    all: rewrite ?Hh; rewrite ?Hh1; try rewrite Hh0 in *.
+    all: try match goal with k : kont |- _ => destruct k end.
+    all: cbn -[wbn pushes starts fops held allfresh] in *.
+    all: rewrite ?hjobs_app, ?hjobs_opt_wake, ?hjobs_wake_frames; cbn -[wbn pushes starts fops held allfresh].
+    all: try rewrite Hr in *.
+    all: try done.
+    (* ij_tail, ij_head, ij_busy for push_back *)
+    all: try (apply allfresh_tail_app; [done|by subst]; fail).
+    all: try (apply head_app; [done|left; by subst]; fail).
+    all: try (intros Hne; apply allfresh_app; [by apply J3|by subst]; fail).
+    all: cbn [wbn pushes starts mbind option_bind]; rewrite ?J5, ?J6; cbn [mbind option_bind trans].
+    all: try (rewrite fops_app; cbn [fops]; rewrite ?Hfj; cbn [app fresh jop]; rewrite ?app_nil_r, <- ?app_assoc; done).
+    all: try (destruct (held s) eqn:Eh; [|rewrite (fresh_wop j0)]; done).
+    all: try (assert (Haf : allfresh (jobs s)) by (apply J3; done)).
+    all: try rewrite (head_wop_fresh _ Haf).
+    all: rewrite ?app_nil_r; cbn [fops fresh jop app]; rewrite ?app_nil_r, <- ?app_assoc; cbn [app].
+    all: rewrite ?decide_True by done.
+    all: try done.
+    all: try (rewrite head_wop_app by (first [done|by subst]); done).
+    all: try (match goal with E0 : jobs _ = _ :: _ |- _ => rewrite E0 in * end; cbn [tail] in J1;
+              first [ by apply allfresh_tail | by apply allfresh_head | done
+                    | cbn [fops]; rewrite <- ?app_assoc; done ]).
+    all: try (intros j0 js [= <- <-]; by right).
+    all: apply (jc_sync_imm _ HC) in E; apply bool_decide_eq_true in E; rewrite E in *; done.
+  Qed.
+End Pres.
+
+Lemma held_init scripts npool nev : held (init scripts npool nev) = [].
+Proof. apply heldl_nil. fold (np marker (init scripts npool nev)). by rewrite np_init. Qed.
+Lemma init_jobs scripts npool nev : Inv_jobs (init scripts npool nev).
+Proof.
+  split; try done; try (by rewrite np_init).
+  - unfold inprog. by rewrite held_init.
+  - unfold pend. by rewrite held_init.
+Qed.
+
+(* reading of [wbn]: after a Start o (newer events = l1) no other Start happens before Finish o *)
+Lemma wbn_exclusive l1 : forall l2 o c, wbn (l1 ++ GStart o :: l2) = Some c -> GFinish o ∉ l1 ->
+  (forall o', GStart o' ∉ l1) /\ c = Some o.
+Proof.
+  induction l1 as [|ev l1 IH]; intros l2 o c; cbn.
+  - intros H _. split; [intros o' H'; by apply elem_of_nil in H'|].
+    destruct (wbn l2) as [[?|]|]; cbn in H; congruence.
+  - intros H Hnf. destruct (wbn (l1 ++ GStart o :: l2)) as [cur|] eqn:E; cbn in H; [|done].
+    destruct (IH l2 o cur E) as [Hns ->]; [intros Hin; apply Hnf; by right|].
+    destruct ev; cbn in H; try done.
+    + injection H as <-. split; [|done]. intros o' [?|?]%elem_of_cons; [done|by eapply Hns].
+    + destruct (decide (o0 = o)) as [->|]; [exfalso; apply Hnf; left|done].
+    + injection H as <-. split; [|done]. intros o' [?|?]%elem_of_cons; [done|by eapply Hns].
+    + injection H as <-. split; [|done]. intros o' [?|?]%elem_of_cons; [done|by eapply Hns].
+Qed.
+Lemma wbn_suffix l1 l2 c : wbn (l1 ++ l2) = Some c -> exists c2, wbn l2 = Some c2.
+Proof.
+  revert c; induction l1 as [|ev l1 IH]; intros c; cbn; [by eexists|].
+  destruct (wbn (l1 ++ l2)) eqn:E; cbn; [|done]. intros _. by eapply IH.
+Qed.
+
+Section Reach.
+  Context (T : ftables) (HT : own_cond T) (HC : jobs_cond T).
+  Theorem reachable_jobs scripts npool nev tr s : run T (init scripts npool nev) tr = Some s -> Inv_own s /\ Inv_jobs s.
+  Proof.
+    apply (run_inv (fun s => Inv_own s /\ Inv_jobs s) T).
+    - intros s0 a s' [HO HJ] Hs. split; [by eapply step_own|by eapply step_jobs].
+    - split; [apply init_own|apply init_jobs].
+  Qed.
+
+  (* C01 across awaits, on the ghost log (newest first): once o has Started, nothing else Starts until Finish o *)
+  Theorem log_exclusive scripts npool nev tr s l1 l2 o :
+    run T (init scripts npool nev) tr = Some s -> s.(log) = l1 ++ GStart o :: l2 -> GFinish o ∉ l1 -> forall o', GStart o' ∉ l1.
+  Proof.
+    intros Hr Hl Hnf. apply reachable_jobs in Hr as [_ HJ]. pose proof (ij_log _ HJ) as H. rewrite Hl in H.
+    by apply (wbn_exclusive l1 l2 o _ H Hnf).
+  Qed.
+  (* ... and the open operation is where the invariant says: in the runner's hand, else at the head of the queue *)
+  Theorem open_op_location scripts npool nev tr s l1 l2 o :
+    run T (init scripts npool nev) tr = Some s -> s.(log) = l1 ++ GStart o :: l2 -> GFinish o ∉ l1 ->
+    (exists j r, held s = j :: r /\ wop j = Some o) \/ (held s = [] /\ exists j r, s.(jobs) = j :: r /\ wop j = Some o).
+  Proof.
+    intros Hr Hl Hnf. apply reachable_jobs in Hr as [_ HJ]. pose proof (ij_log _ HJ) as H. rewrite Hl in H.
+    destruct (wbn_exclusive l1 l2 o _ H Hnf) as [_ Ho]. unfold inprog in Ho.
+    destruct (held s) as [|j r]; [right|left; by exists j, r].
+    split; [done|]. destruct (jobs s) as [|j r]; [done|]. by exists j, r.
+  Qed.
+  (* C02: operations Start in the order their jobs were pushed *)
+  Theorem fifo scripts npool nev tr s :
+    run T (init scripts npool nev) tr = Some s -> starts s.(log) `prefix_of` pushes s.(log).
+  Proof. intros Hr. apply reachable_jobs in Hr as [_ HJ]. rewrite (ij_fifo _ HJ). by eexists. Qed.
+End Reach.
